@@ -194,3 +194,274 @@ theorem sinv_step {c : Nat} (t : Trace) (e : Ev) (h : SInv c t) : SInv c (t.step
   | wclear =>
     exact sinv_flag t _ _ _ h ⟨rfl, rfl, rfl, rfl⟩
       (fun n hn => ⟨hn, rfl, rfl, Or.inl rfl⟩) (fun r n hn => ⟨hn, rfl, rfl, Or.inr rfl⟩) (Or.inl rfl)
+
+theorem sinv_init (sz : Nat) (h : 0 < sz) : SInv sz { s := init sz } := by
+  refine ⟨inv_new sz h, by simp [init, newPipe, Pipe.cap], by simp [init, abs_new], ?_, ?_, ?_⟩ <;> intros <;> simp_all [init]
+
+theorem sinv_foldl {c : Nat} (evs : List Ev) : ∀ t, SInv c t → SInv c (evs.foldl Trace.step t) := by
+  induction evs with
+  | nil => intro t h; exact h
+  | cons e es ih => intro t h; exact ih _ (sinv_step t e h)
+
+/-- The invariant holds in every reachable state, for every capacity ≥ 1 and every event sequence. -/
+theorem sinv_run (sz : Nat) (evs : List Ev) (h : 0 < sz) : SInv sz (run sz evs) :=
+  sinv_foldl evs _ (sinv_init sz h)
+
+/-! ## The property theorems (all capacities ≥ 1, all event sequences = all chunkings and interleavings) -/
+
+/-- **Refinement to a bounded FIFO / conservation.** After any event sequence: what the reader got,
+followed by the buffered content, is exactly what writes copied in — no loss, duplication or reordering —
+and the buffered content never exceeds the capacity. -/
+theorem stream_faithful (sz : Nat) (evs : List Ev) (h : 0 < sz) :
+    (run sz evs).got ++ (run sz evs).s.p.abs = (run sz evs).put ∧ (run sz evs).s.p.abs.length ≤ sz := by
+  have hi := sinv_run sz evs h
+  refine ⟨hi.conserve, ?_⟩
+  have := abs_length_le _ hi.inv
+  rw [hi.cap_eq] at this; exact this
+
+/-- The reader always holds a prefix of what was written. -/
+theorem reads_prefix_of_writes (sz : Nat) (evs : List Ev) (h : 0 < sz) :
+    (run sz evs).got <+: (run sz evs).put :=
+  ⟨_, (stream_faithful sz evs h).1⟩
+
+theorem rAttempt_out (s : Sys) (n : Nat) : (rAttempt s n).2.1 = .r (readStep s.p n).2.1 := by
+  unfold rAttempt; dsimp only; generalize readStep s.p n = q; obtain ⟨a, o, b⟩ := q; cases o <;> rfl
+
+theorem wFinish_out (s : Sys) (q : Pipe × WOut × Bool × List Nat) : (wFinish s q).2.1 = .w q.2.1 := by
+  unfold wFinish; obtain ⟨a, o, b⟩ := q; cases o <;> rfl
+
+/-- a step that answers a read outcome is a read attempt on the current pipe -/
+theorem step_read_out (s : Sys) (e : Ev) (o : ROut) (h : (step s e).2.1 = .r o) :
+    ∃ n, o = (readStep s.p n).2.1 := by
+  unfold step at h
+  cases e <;> simp only at h
+  case read n =>
+    cases hrt : s.rt <;> rw [hrt] at h <;> simp only at h
+    · rw [rAttempt_out] at h; exact ⟨n, by injection h with h; exact h.symm⟩
+    all_goals exact absurd h (by simp)
+  case rresume =>
+    cases hrt : s.rt <;> rw [hrt] at h <;> simp only at h
+    case woken n => rw [rAttempt_out] at h; exact ⟨n, by injection h with h; exact h.symm⟩
+    all_goals exact absurd h (by simp)
+  case write bs =>
+    cases hwt : s.wt <;> rw [hwt] at h <;> simp only at h
+    · rw [wFinish_out] at h; exact absurd h (by simp)
+    all_goals exact absurd h (by simp)
+  case wresume =>
+    cases hwt : s.wt <;> rw [hwt] at h <;> simp only at h
+    case woken r n => rw [wFinish_out] at h; exact absurd h (by simp)
+    all_goals exact absurd h (by simp)
+  all_goals exact absurd h (by simp)
+
+/-- **End-of-stream only after drain.** Whenever a read answers EOF, the writer side is closed and the
+reader has received every byte that was ever copied into the pipe. -/
+theorem eof_only_after_drain (sz : Nat) (evs : List Ev) (e : Ev) (h : 0 < sz)
+    (he : (step (run sz evs).s e).2.1 = .r .eof) :
+    (run sz evs).got = (run sz evs).put ∧ (run sz evs).s.p.writeClosed = true := by
+  have hi := sinv_run sz evs h
+  obtain ⟨n, hn⟩ := step_read_out _ _ _ he
+  have rs := readStep_spec (run sz evs).s.p n hi.inv
+  unfold ReadSpec at rs
+  rw [← hn] at rs
+  obtain ⟨_, _, _, _, ha, hw, _⟩ := rs
+  have hc := hi.conserve
+  rw [ha, List.append_nil] at hc
+  exact ⟨hc, hw⟩
+
+/-- a step that answers a write outcome is a write attempt (fresh or resumed) on the current pipe -/
+theorem step_write_out (s : Sys) (e : Ev) (o : WOut) (h : (step s e).2.1 = .w o) :
+    (∃ bs, e = .write bs ∧ s.wt = .idle ∧ o = (writeStart s.p bs).2.1) ∨
+    (∃ rest n, s.wt = .woken rest n ∧ o = (writeResume s.p rest n).2.1) := by
+  unfold step at h
+  cases e <;> simp only at h
+  case read n =>
+    cases hrt : s.rt <;> rw [hrt] at h <;> simp only at h
+    · rw [rAttempt_out] at h; exact absurd h (by simp)
+    all_goals exact absurd h (by simp)
+  case rresume =>
+    cases hrt : s.rt <;> rw [hrt] at h <;> simp only at h
+    case woken n => rw [rAttempt_out] at h; exact absurd h (by simp)
+    all_goals exact absurd h (by simp)
+  case write bs =>
+    cases hwt : s.wt <;> rw [hwt] at h <;> simp only at h
+    · rw [wFinish_out] at h; exact Or.inl ⟨bs, rfl, rfl, by injection h with h; exact h.symm⟩
+    all_goals exact absurd h (by simp)
+  case wresume =>
+    cases hwt : s.wt <;> rw [hwt] at h <;> simp only at h
+    case woken r n => rw [wFinish_out] at h; exact Or.inr ⟨r, n, rfl, by injection h with h; exact h.symm⟩
+    all_goals exact absurd h (by simp)
+  all_goals exact absurd h (by simp)
+
+/-- what a write attempt can answer, from the pipe flags -/
+theorem write_out_cases {c : Nat} (t : Trace) (hi : SInv c t) (e : Ev) (o : WOut) (h : (step t.s e).2.1 = .w o) :
+    o ≠ .spin ∧
+    (t.s.p.closed = true → o = .errClosed) ∧
+    (∀ r n, o = .block r n → t.s.p.closed = false ∧ t.s.p.writeClosed = false ∧ t.s.p.wtimedout = false) ∧
+    (∀ bs, e = .write bs → bs ≠ [] → t.s.p.writeClosed = true → o = .errClosed) ∧
+    (∀ bs n, e = .write bs → o = .ok n → n = bs.length) := by
+  have key : ∀ (bs : List Nat) (n0 : Nat) (q : Pipe × WOut × Bool × List Nat), WriteSpec t.s.p bs n0 false [] q → bs ≠ [] ∨ t.s.p.closed = false →
+      q.2.1 ≠ .spin ∧ (t.s.p.closed = true → q.2.1 = .errClosed) ∧
+      (∀ r n, q.2.1 = .block r n → t.s.p.closed = false ∧ t.s.p.writeClosed = false ∧ t.s.p.wtimedout = false) ∧
+      (bs ≠ [] → t.s.p.writeClosed = true → q.2.1 = .errClosed) ∧ (∀ n, q.2.1 = .ok n → n = n0 + bs.length) := by
+    intro bs n0 q ws hbs
+    obtain ⟨qp, qo, qs, qc⟩ := q
+    obtain ⟨_, _, k, _, _, _, _, m⟩ := ws
+    cases qo <;> simp only at m ⊢
+    case ok n =>
+      obtain ⟨m1, m2, m3⟩ := m
+      have hcl : bs = [] ∨ (t.s.p.closed = false ∧ t.s.p.writeClosed = false) := by
+        rcases m3 with m3 | m3
+        · exact Or.inl m3
+        · right; simpa using m3
+      refine ⟨by simp, ?_, by simp, ?_, by intro n' hn; injection hn with hn; omega⟩
+      · intro hc; exfalso
+        rcases hcl with e | e
+        · rcases hbs with b | b
+          · exact b e
+          · rw [hc] at b; exact absurd b (by simp)
+        · rw [hc] at e; exact absurd e.1 (by simp)
+      · intro hne hw; exfalso
+        rcases hcl with e | e
+        · exact hne e
+        · rw [hw] at e; exact absurd e.2 (by simp)
+    case errClosed => simp
+    case timeout =>
+      refine ⟨by simp, ?_, by simp, ?_, by simp⟩
+      · intro hc; rw [hc] at m; exact absurd m.2.2.1 (by simp)
+      · intro _ hw; rw [hw] at m; exact absurd m.2.2.2.1 (by simp)
+    case block r n =>
+      obtain ⟨_, _, _, _, b1, b2, b3⟩ := m
+      refine ⟨by simp, ?_, fun _ _ _ => ⟨b1, b2, b3⟩, ?_, by simp⟩
+      · intro hc; rw [hc] at b1; exact absurd b1 (by simp)
+      · intro _ hw; rw [hw] at b2; exact absurd b2 (by simp)
+  rcases step_write_out _ _ _ h with ⟨bs, he, _, ho⟩ | ⟨rest, n, hw, ho⟩
+  · subst he
+    rcases writeStart_spec t.s.p bs hi.inv with ⟨c1, e1⟩ | ⟨c1, ws⟩
+    · rw [e1] at ho; simp only at ho; subst ho
+      refine ⟨by simp, fun _ => rfl, by simp, fun _ _ _ _ => rfl, by simp⟩
+    · obtain ⟨k1, k2, k3, k4, k5⟩ := key bs 0 _ ws (Or.inr c1)
+      rw [← ho] at k1 k2 k3 k4 k5
+      refine ⟨k1, k2, k3, ?_, ?_⟩
+      · intro bs' hb hne hw; injection hb with hb; subst hb; exact k4 hne hw
+      · intro bs' n hb hn; injection hb with hb; subst hb; have := k5 n hn; omega
+  · have hne := hi.wwoken rest n hw
+    obtain ⟨k1, k2, k3, k4, k5⟩ := key rest n _ (writeResume_spec t.s.p rest n hi.inv) (Or.inl hne)
+    rw [← ho] at k1 k2 k3 k4 k5
+    refine ⟨k1, k2, k3, ?_, ?_⟩
+    · intro bs' hb; subst hb
+      unfold step at h; simp only [hw] at h; exact absurd h (by simp)
+    · intro bs' n' hb; subst hb
+      unfold step at h; simp only [hw] at h; exact absurd h (by simp)
+
+theorem read_out_cases (p : Pipe) (n : Nat) :
+    (p.closed = true → (readStep p n).2.1 = .errClosed) ∧
+    ((readStep p n).2.1 = .block → p.closed = false ∧ p.writeClosed = false ∧ p.rtimedout = false) := by
+  unfold readStep
+  refine ⟨fun h => by simp [h], ?_⟩
+  intro h
+  cases hc : p.closed <;> cases he : p.empty <;> cases hw : p.writeClosed <;> cases ht : p.rtimedout <;>
+    simp [hc, he, hw, ht] at h ⊢
+
+/-- **Reads and writes on a closed end fail.** In any reachable state with `closed` set, every read
+attempt (fresh or resumed) answers `ErrClosedPipe` and so does every write attempt; and once the write side
+is closed (`closeWrite`, i.e. the peer `conn` was closed) a non-empty `Write` answers `ErrClosedPipe`. -/
+theorem closed_ops_fail (sz : Nat) (evs : List Ev) (e : Ev) (h : 0 < sz) :
+    ((run sz evs).s.p.closed = true →
+      (∀ o, (step (run sz evs).s e).2.1 = .r o → o = .errClosed) ∧
+      (∀ o, (step (run sz evs).s e).2.1 = .w o → o = .errClosed)) ∧
+    ((run sz evs).s.p.writeClosed = true → ∀ bs o, e = .write bs → bs ≠ [] →
+      (step (run sz evs).s e).2.1 = .w o → o = .errClosed) := by
+  have hi := sinv_run sz evs h
+  refine ⟨fun hc => ⟨?_, ?_⟩, ?_⟩
+  · intro o ho
+    obtain ⟨n, hn⟩ := step_read_out _ _ _ ho
+    rw [hn]; exact (read_out_cases _ n).1 hc
+  · intro o ho; exact (write_out_cases _ hi e o ho).2.1 hc
+  · intro hw bs o he hne ho; exact (write_out_cases _ hi e o ho).2.2.2.1 bs he hne hw
+
+/-- **No lost wake-up** (one reader, one writer): in every reachable state a reader parked in `rwait`
+really has nothing to return (buffer empty, neither closed, nor write-closed, nor timed out), and a writer
+parked in `wwait` really cannot proceed (buffer full, not closed, not write-closed, not timed out). -/
+theorem no_lost_wakeup (sz : Nat) (evs : List Ev) (h : 0 < sz) :
+    (∀ n, (run sz evs).s.rt = .waiting n →
+      (run sz evs).s.p.abs = [] ∧ (run sz evs).s.p.closed = false ∧
+      (run sz evs).s.p.writeClosed = false ∧ (run sz evs).s.p.rtimedout = false) ∧
+    (∀ rest n, (run sz evs).s.wt = .waiting rest n →
+      rest ≠ [] ∧ (run sz evs).s.p.abs.length = sz ∧ (run sz evs).s.p.closed = false ∧
+      (run sz evs).s.p.writeClosed = false ∧ (run sz evs).s.p.wtimedout = false) := by
+  have hi := sinv_run sz evs h
+  refine ⟨hi.rwait, ?_⟩
+  intro rest n hw
+  obtain ⟨a, b, c⟩ := hi.wwait rest n hw
+  refine ⟨a, ?_, c⟩
+  have := (full_iff _ hi.inv).mp b
+  rw [hi.cap_eq] at this; exact this
+
+/-- **No call blocks forever once an end closes.** In every reachable state where the pipe is closed
+(reader side `Close`) or write-closed (writer side closed): nobody is parked in a condition variable
+(they have been woken) and no read or write attempt — fresh or resumed — parks again. -/
+theorem close_unblocks (sz : Nat) (evs : List Ev) (h : 0 < sz)
+    (hc : (run sz evs).s.p.closed = true ∨ (run sz evs).s.p.writeClosed = true) :
+    (∀ n, (run sz evs).s.rt ≠ .waiting n) ∧ (∀ r n, (run sz evs).s.wt ≠ .waiting r n) ∧
+    (∀ e, (step (run sz evs).s e).2.1 ≠ .r .block ∧ ∀ r n, (step (run sz evs).s e).2.1 ≠ .w (.block r n)) := by
+  have hi := sinv_run sz evs h
+  refine ⟨?_, ?_, ?_⟩
+  · intro n hn; obtain ⟨_, a, b, _⟩ := hi.rwait n hn
+    rcases hc with c | c <;> simp_all
+  · intro r n hn; obtain ⟨_, _, a, b, _⟩ := hi.wwait r n hn
+    rcases hc with c | c <;> simp_all
+  · intro e; refine ⟨?_, ?_⟩
+    · intro hb
+      obtain ⟨n, hn⟩ := step_read_out _ _ _ hb
+      obtain ⟨a, b, _⟩ := (read_out_cases _ n).2 hn.symm
+      rcases hc with c | c <;> simp_all
+    · intro r n hb
+      obtain ⟨a, b, _⟩ := (write_out_cases _ hi e _ hb).2.2.1 r n rfl
+      rcases hc with c | c <;> simp_all
+
+/-- **Deadlines unblock waiting calls.** Once the read (write) deadline timer has fired and until the
+deadline is reset, the reader (writer) is not parked and no read (write) attempt parks. -/
+theorem deadline_unblocks (sz : Nat) (evs : List Ev) (h : 0 < sz) :
+    ((run sz evs).s.p.rtimedout = true →
+      (∀ n, (run sz evs).s.rt ≠ .waiting n) ∧ ∀ e, (step (run sz evs).s e).2.1 ≠ .r .block) ∧
+    ((run sz evs).s.p.wtimedout = true →
+      (∀ r n, (run sz evs).s.wt ≠ .waiting r n) ∧ ∀ e r n, (step (run sz evs).s e).2.1 ≠ .w (.block r n)) := by
+  have hi := sinv_run sz evs h
+  refine ⟨fun ht => ⟨?_, ?_⟩, fun ht => ⟨?_, ?_⟩⟩
+  · intro n hn; obtain ⟨_, _, _, a⟩ := hi.rwait n hn; simp_all
+  · intro e hb
+    obtain ⟨n, hn⟩ := step_read_out _ _ _ hb
+    obtain ⟨_, _, a⟩ := (read_out_cases _ n).2 hn.symm
+    simp_all
+  · intro r n hn; obtain ⟨_, _, _, _, a⟩ := hi.wwait r n hn; simp_all
+  · intro e r n hb
+    obtain ⟨_, _, a⟩ := (write_out_cases _ hi e _ hb).2.2.1 r n rfl
+    simp_all
+
+/-- A `Write` that returns without error has accepted every byte, and `Write` never spins (cap ≥ 1). -/
+theorem write_ok_complete (sz : Nat) (evs : List Ev) (bs : List Nat) (h : 0 < sz) :
+    (step (run sz evs).s (.write bs)).2.1 ≠ .w .spin ∧
+    ∀ n, (step (run sz evs).s (.write bs)).2.1 = .w (.ok n) → n = bs.length := by
+  have hi := sinv_run sz evs h
+  refine ⟨?_, ?_⟩
+  · intro hb; exact (write_out_cases _ hi _ _ hb).1 rfl
+  · intro n hb; exact (write_out_cases _ hi _ _ hb).2.2.2.2 bs n rfl rfl
+
+/-! ### non-vacuity: concrete runs (cap 3: wrap-around, partial write that parks, wake-up, EOF) -/
+
+/-- write 5 bytes into cap 3 parks after 3; the read wakes the writer; it finishes; close-write; drain; EOF -/
+def demo : List Ev :=
+  [.write [1,2,3,4,5], .read 2, .wresume, .read 8, .read 8, .closeWrite, .read 8]
+
+example : (run 3 demo).got = [1,2,3,4,5] ∧ (run 3 demo).put = [1,2,3,4,5] ∧ (run 3 demo).s.p.abs = [] := by decide
+example : (step (run 3 [.write [1,2,3,4,5]]).s (.read 2)).2.1 = .r (.data [1,2]) ∧
+    (run 3 [.write [1,2,3,4,5]]).s.wt = .waiting [4,5] 3 ∧
+    (run 3 [.write [1,2,3,4,5], .read 2]).s.wt = .woken [4,5] 3 := by decide
+example : (step (run 3 demo).s (.read 4)).2.1 = .r .eof := by decide
+example : (run 3 [.read 1]).s.rt = .waiting 1 ∧ (run 3 [.read 1, .close]).s.rt = .woken 1 ∧
+    (step (run 3 [.read 1, .close]).s .rresume).2.1 = .r .errClosed := by decide
+example : (run 2 [.read 1, .rtimer]).s.p.rtimedout = true ∧
+    (step (run 2 [.read 1, .rtimer]).s .rresume).2.1 = .r .timeout := by decide
+example : (step (run 2 [.closeWrite]).s (.write [7])).2.1 = .w .errClosed := by decide
+
+end Specter.C39
